@@ -8,7 +8,8 @@
      * inside a double-quoted segment \" stands for a double quote; any other character, including a backslash
        that is not followed by a double quote, stands for itself.
    Split(t) = [ok, words]: ok says that t is inside this domain (no leading/trailing/adjacent separators, quotes
-   closed, no backslash outside quotes, no empty word); only then the property fixes the words.  Outside the
+   closed, no backslash outside quotes); only then the property fixes the words.  A word that consists of empty
+   quoted segments only ("") is the empty word - the only way the form offers to pass an empty argument.  Outside the
    domain the trace spec merely requires that the process is started and finishes (no hang, no crash).       *)
 EXTENDS Integers, Sequences, FiniteSets, TLC
 
@@ -19,10 +20,10 @@ Bad == [ok |-> FALSE, words |-> <<>>]
 RECURSIVE Scan(_, _, _, _, _, _)
 \* i: position, cur: word so far, begun: a word has started, inq: inside quotes
 Scan(t, i, cur, begun, inq, words) ==
-  IF i > Len(t) THEN (IF inq \/ ~begun \/ cur = <<>> THEN Bad ELSE [ok |-> TRUE, words |-> Append(words, cur)])
+  IF i > Len(t) THEN (IF inq \/ ~begun THEN Bad ELSE [ok |-> TRUE, words |-> Append(words, cur)])
   ELSE LET c == t[i] IN
   IF ~inq THEN
-    IF c = SP THEN (IF ~begun \/ cur = <<>> THEN Bad ELSE Scan(t, i + 1, <<>>, FALSE, FALSE, Append(words, cur)))
+    IF c = SP THEN (IF ~begun THEN Bad ELSE Scan(t, i + 1, <<>>, FALSE, FALSE, Append(words, cur)))
     ELSE IF c = QT THEN Scan(t, i + 1, cur, TRUE, TRUE, words)
     ELSE IF c = BS THEN Bad
     ELSE Scan(t, i + 1, Append(cur, c), TRUE, FALSE, words)
@@ -48,9 +49,8 @@ Next == UNCHANGED vars
 Spec == Init /\ [][Next]_vars
 RECURSIVE SumLen(_, _)
 SumLen(ws, i) == IF i > Len(ws) THEN 0 ELSE Len(ws[i]) + SumLen(ws, i + 1)
-\* words are non-empty, together not longer than the line; a line of plain characters and single spaces splits at the spaces
-WordsOK == LET r == Split(st) IN r.ok => /\ \A i \in 1..Len(r.words) : r.words[i] # <<>>
-                                       /\ SumLen(r.words, 1) + Len(r.words) <= Len(st) + 1
+\* the words are together not longer than the line; a line of plain characters and single spaces splits at the spaces
+WordsOK == LET r == Split(st) IN r.ok => /\ SumLen(r.words, 1) + Len(r.words) <= Len(st) + 1
 PlainOK == (\A i \in 1..Len(st) : st[i] \notin {QT, BS}) /\ Split(st).ok /\ st # <<>>
              => Len(Split(st).words) = 1 + Cardinality({ i \in 1..Len(st) : st[i] = SP })
 ================================================================================
